@@ -601,7 +601,7 @@ def c08(tier):
                 "every hash column and the sizes of queue/overlay must equal those before it, immediately, after draining "
                 "and after reopen; non-trivial = a rejected call with a non-empty pipeline")
     rep.assumptions = ["invalid operations modelled: Reference on a column without counting; any commit after a background error",
-                       "tree-specific rejections are covered by C10's module"]
+                       "tree columns: rejections enumerated in MCMultiTree.tla (RejectWide / RejectOther)"]
     vcore.build_harness()
     thorough = tier == "thorough"
     kw = dict(kind="hr", nkeys=1, nvals=1, maxcalls=3, maxops=2, maxcrash=0, fine=True,
@@ -624,6 +624,15 @@ def c08(tier):
     for j in range(ntr):
         record_and_validate(rep, C08_COLS[j % len(C08_COLS)], 8, 3, 500 if thorough else 300, SEED * 151 + j,
                             label="c08t%d" % j, small=True)
+    # tree columns (MultiTree.tla): transactions rejected after a valid InsertTree has claimed its nodes,
+    # fan-out that cannot be stored, dereference of a missing tree, plain operation on the tree column
+    for j, var in enumerate(["", "rc,pads"] + (["direct,big", "ao"] if thorough else [])):
+        vs = var.split(",")
+        behs = mt_generate(rep, 60 if thorough else 10, 30, SEED * 29 + j, rc="rc" in vs, ao="ao" in vs, fine=False,
+                           shapes="ShapesWide", maxids=14, maxcommits=10, maxlocks=0, nt=3, nv=2, rejw=35)
+        nrej = sum(1 for b in behs for e in b["steps"] if e.get("a") == "Reject")
+        rep.extra["rejected_tree_transactions_replayed"] = rep.extra.get("rejected_tree_transactions_replayed", 0) + nrej
+        generic_replay(rep, "mtree-replay", behs, {"seed": SEED + 80 + j, "variant": var}, "c08m_%d" % j, "mtree-replay")
     return rep.finish()
 
 
@@ -890,9 +899,9 @@ def generic_replay(rep, cmd, behs, extra_args, label, kind):
                 raise ToolError("replay harness cannot follow the behaviour: %s" % v["what"])
             rep.violation("%s [step %s %s]" % (v["what"], v.get("step"), v.get("a")),
                           {"kind": kind, "cmd": cmd, "args": extra_args, "behaviour": b},
-                          ctx=json.dumps(b[: v.get("step", len(b))]))
+                          ctx=json.dumps((b["steps"] if isinstance(b, dict) else b)[: v.get("step", len(b))]))
     if behs:
-        rep.sample({"behaviour": behs[0][:14]})
+        rep.sample({"behaviour": (behs[0]["steps"] if isinstance(behs[0], dict) else behs[0])[:14]})
     log("[replay] %s: %d behaviours replayed" % (label, len(results)))
     return results
 
@@ -1290,4 +1299,150 @@ def c09(tier):
         cols = colsets[j % len(colsets)]
         record_and_validate(rep, cols, 80, 3, 2200 if thorough else 1000, SEED * 61 + j, crash=2, label="c09t%d" % j,
                             small=True, dumps=True)
+    return rep.finish()
+
+
+# ---------------------------------------------------------------------------
+# C10 / C11: multitree columns (spec/MultiTree.tla)
+
+def mt_cfg(rc=False, ao=False, fine=False, shapes="ShapesSmall", maxids=5, maxcommits=4, maxlocks=0, maxdefers=2,
+           nt=2, nv=1, fix=("F18",), mut=(), gen=False, genlen=30, invariants=None, pipes=("flush", "enact", "clean"),
+           rejw=6):
+    b = lambda x: "TRUE" if x else "FALSE"
+    sset = lambda xs: "{" + ", ".join('"%s"' % x for x in xs) + "}"
+    lines = ["SPECIFICATION %s" % ("GenSpec" if gen else "MCSpec"), "CONSTANTS",
+             "  NT = %d" % nt, "  NX = 1", "  NV = %d" % nv, "  MaxIds = %d" % maxids, "  MaxCommits = %d" % maxcommits,
+             "  MaxLocks = %d" % maxlocks, "  MaxDefers = %d" % maxdefers, "  RcRoots = %s" % b(rc), "  AO = %s" % b(ao),
+             "  Fine = %s" % b(fine), "  Fix = %s" % sset(fix), "  Mut = %s" % sset(mut), "  Shapes <- %s" % shapes,
+             "  GenLen = %d" % genlen, "  Pipes = %s" % sset(pipes), "  RejW = %d" % rejw]
+    if gen:
+        lines += ["INVARIANTS TypeOK EmitTrace"]
+    else:
+        inv = invariants or ("TypeOK", "NoCorrupt", "ReaderStable", "IdealVisible", "XVisible", "FinalState")
+        lines += ["INVARIANTS " + " ".join(inv), "VIEW ViewNoHist"]
+    lines += ["CONSTRAINT DeferBound", "CHECK_DEADLOCK FALSE"]
+    return "\n".join(lines) + "\n"
+
+
+def mt_generate(rep, num, depth, seed, **kw):
+    kw.update(gen=True, genlen=depth)
+    behs, gen, _ = vcore.tlc_simulate("MCMultiTree.tla", write_cfg(mt_cfg(**kw)), num, depth, seed)
+    rep.transitions += gen
+    return behs
+
+
+def mt_scenario(rep, which, variant=""):
+    """forced schedule on the real code (hook sink holds the log worker after its deferral check)"""
+    p = vcore.pdbh("mtree-scenario", {"which": which, "variant": variant}, timeout=300)
+    line = [l for l in p.stdout.splitlines() if l.startswith("{")]
+    if not line:
+        raise ToolError("mtree-scenario %s printed no result" % which)
+    r = json.loads(line[-1])
+    rep.behaviours += 1
+    rep.evaluations += 1
+    if not r.get("reached"):
+        raise ToolError("scenario %s: the log worker never reached the gated point (hook missing?)" % which)
+    rep.nontrivial.add("scenario-%s-%s" % (which, variant))
+    rep.extra.setdefault("forced_schedules", []).append({"which": which, "variant": variant, "lock_blocked": r.get("lock_blocked"),
+                                                         "reused_node_under_lock": r.get("reused")})
+    for v in r["violations"]:
+        rep.violation("forced schedule %s: %s" % (which, v), {"kind": "mtree-scenario", "which": which, "variant": variant})
+    log("[scenario] %s variant=%r: reader lock %s, %d violations"
+        % (which, variant, "waited for the log worker" if r.get("lock_blocked") else "was granted", len(r["violations"])))
+
+
+@check("C10")
+def c10(tier):
+    rep = Report("C10", tier)
+    rep.rule = ("MultiTree.tla (roots, node ids standing for addresses claimed at commit time, node reference counts, commit "
+                "overlay, queue, sequential ghost state) model-checked for every history of InsertTree (menu of child lists: "
+                "new leaves, new inner nodes, existing nodes incl. the same node twice and below a new node) / ReferenceTree / "
+                "DereferenceTree x every schedule of the log worker, for plain, ref-counted-root and append-only columns: "
+                "NoCorrupt (no freed node is incremented, decremented or walked), IdealVisible (every tree that is live for the "
+                "client reads back with the data and child order supplied, all descendants present), FinalState (exactly the "
+                "nodes reachable from live trees occupy storage); necessity config without the increment of existing "
+                "children.  TLC-generated behaviours (trees, pipeline steps, clean restarts, transactions that must be "
+                "rejected: fan-out 256/300, dereference of a missing tree, plain operation on the tree column, valid "
+                "InsertTree followed by an invalid operation) are replayed: after every step every visible tree is traversed "
+                "through get_tree + TreeReader (and get_root/get_node on direct-access columns) with the id<->address "
+                "bijection checked, get_num_column_value_entries compared with live nodes + stored roots, and, when drained, "
+                "the ref-count table compared with the model's counts; node and root sizes range over 0 bytes .. multi-part, "
+                "fan-out up to exactly 255; non-trivial = behaviour with an existing child or a deferral")
+    rep.assumptions = ["distinct live root keys (a key is inserted again only after its tree was dereferenced)",
+                       "existing children name nodes of trees that are live for the client"]
+    vcore.build_harness()
+    thorough = tier == "thorough"
+    mc = 5 if thorough else 4
+    for label, kw in [("plain", dict()), ("rc_roots", dict(rc=True)), ("append_only", dict(ao=True))]:
+        run_model(rep, mt_cfg(fine=False, shapes="ShapesWide" if thorough else "ShapesSmall", maxids=6 if thorough else 5,
+                              maxcommits=mc, maxlocks=0, nt=2, nv=1, **kw),
+                  "MC_MultiTree_%s" % label, module="MCMultiTree.tla", timeout=3400)
+    r = vcore.tlc_check("MCMultiTree.tla", write_cfg(mt_cfg(fine=False, maxcommits=4, mut=("no_inc",))), timeout=1200)
+    rep.add_model(r, "MC_MultiTree_noguard_no_inc")
+    if r["ok"]:
+        raise ToolError("MultiTree.tla without the increment of existing children passes: vacuous")
+    log("[tlc] necessity no_inc: %s after %d states" % (r["violated"], r["distinct"]))
+    variants = ["", "rc", "direct", "ao", "direct,pads", "big", "pads", "rc,direct,pads,big"]
+    if thorough:
+        variants += ["direct,big,pads", "rc,big", "ao,big,pads", "rc,pads"]
+    num = 120 if thorough else 14
+    for j, var in enumerate(variants):
+        vs = var.split(",")
+        behs = mt_generate(rep, num, 34 if thorough else 30, SEED * 17 + j, rc="rc" in vs, ao="ao" in vs, fine=False,
+                           shapes="ShapesWide", maxids=14, maxcommits=10, maxlocks=0, nt=3, nv=2)
+        generic_replay(rep, "mtree-replay", behs, {"seed": SEED + j, "variant": var}, "c10_%d" % j, "mtree-replay")
+    return rep.finish()
+
+
+@check("C11")
+def c11(tier):
+    rep = Report("C11", tier)
+    rep.rule = ("MultiTree.tla with reader locks (Lock/Unlock with the root snapshot taken under the lock), the log worker's "
+                "deferral check and its plan as SEPARATE steps, used_trees, to_dereference counts and re-queuing under a fresh "
+                "id with the overlay re-tagged: ReaderStable (a locked reader keeps seeing its root and all its nodes), "
+                "NoCorrupt / IdealVisible (trees committed under the lock that reuse its nodes stay whole), XVisible and "
+                "FinalState (reads and final state equal commit order) model-checked over all interleavings; necessity configs "
+                "drop the deferral, the used_trees marking and the write lock held from check to plan (the defect fixed in "
+                "6cad621, F18).  Generated fine-grained behaviours are replayed with reader THREADS holding "
+                "get_tree(..).read() across steps and the log worker's process_commits on its own thread held at BeginRecord "
+                "by the hook sink; the hook events (Pop, Defer old->new id, BeginRecord, CommitLin) must match the "
+                "specification's step; the counterexample schedule of F18 is forced on the real code.  The known deferral "
+                "reorder (F3) is recognised by the model's conflict flag (a deferred commit moved behind a commit writing the "
+                "same key); non-trivial = behaviour with a deferral or a tree reusing nodes")
+    rep.assumptions = ["a key is not inserted again while a reader holds the old tree under that key",
+                       "a reader that finds the tree's write lock held waits (not modelled as a step)"]
+    vcore.build_harness()
+    thorough = tier == "thorough"
+    for label, kw in [("plain", dict()), ("rc_roots", dict(rc=True))]:
+        run_model(rep, mt_cfg(fine=True, shapes="ShapesSmall" if thorough else "ShapesTiny", maxids=5 if thorough else 4,
+                              maxcommits=5 if thorough else 4, maxlocks=2, maxdefers=2, nt=2, nv=1, **kw),
+                  "MC_MultiTree_fine_%s" % label, module="MCMultiTree.tla", timeout=3400)
+    for mut, fix in [(("no_defer",), ("F18",)), (("no_used",), ("F18",)), ((), ())]:
+        name = "_".join(mut) or "no_F18_repair"
+        r = vcore.tlc_check("MCMultiTree.tla", write_cfg(mt_cfg(fine=True, shapes="ShapesTiny", maxids=4, maxcommits=4,
+                                                                  maxlocks=1, mut=mut, fix=fix)), timeout=1800)
+        rep.add_model(r, "MC_MultiTree_noguard_%s" % name)
+        if r["ok"]:
+            raise ToolError("MultiTree.tla without %s passes: the model cannot justify rejecting behaviours on it" % name)
+        log("[tlc] necessity %s: %s after %d states" % (name, r["violated"], r["distinct"]))
+    # the known deferral reorder at model level: commit order is NOT kept when a deferred commit conflicts
+    r = vcore.tlc_check("MCMultiTree.tla", write_cfg(mt_cfg(fine=False, shapes="ShapesTiny", maxids=3, maxcommits=3, maxlocks=1,
+                                                              invariants=("TypeOK", "FinalStateStrict"))), timeout=1200)
+    rep.add_model(r, "MC_MultiTree_commit_order_strict")
+    if not r["ok"]:
+        rep.violation("deferral reorder: state differs from applying the transactions in commit order (model: %s violated "
+                      "with the whole commit re-queued behind a later commit writing the same key)" % r["violated"],
+                      {"kind": "model", "cfg": "MC_MultiTree_commit_order_strict", "tlc_tail": r["out"][-5000:]})
+    for var in ["", "rc"] + (["direct", "rc,big"] if thorough else []):
+        mt_scenario(rep, "F18", var)
+    variants = ["", "rc", "direct,pads"] + (["big", "rc,direct,pads", "direct,big"] if thorough else [])
+    num = 100 if thorough else 12
+    for j, var in enumerate(variants):
+        vs = var.split(",")
+        behs = mt_generate(rep, num, 34 if thorough else 30, SEED * 19 + j, rc="rc" in vs, fine=True, shapes="ShapesWide",
+                           maxids=14, maxcommits=10, maxlocks=5, maxdefers=4, nt=3, nv=2)
+        generic_replay(rep, "mtree-replay", behs, {"seed": SEED + 40 + j, "variant": var}, "c11_%d" % j, "mtree-replay")
+        behs = mt_generate(rep, max(4, num // 2), 30, SEED * 23 + j, rc="rc" in vs, fine=False, shapes="ShapesWide",
+                           maxids=14, maxcommits=10, maxlocks=5, maxdefers=4, nt=3, nv=2)
+        generic_replay(rep, "mtree-replay", behs, {"seed": SEED + 60 + j, "variant": var}, "c11c_%d" % j, "mtree-replay")
     return rep.finish()
